@@ -109,6 +109,7 @@ void gen_c18(Plan &p, Rng &r, bool thorough) {
         Op a = mk(mode >= 8 ? OP_COUNT : OP_ASM, 0);
         a.c = r.range(2, 32);
         int nl = (int)r.range(1, 12);
+        if (internal && r.chance(1, 8)) nl = (int)r.range(1300, 1900);  // growth (and relocation) of the buffer while other callers run
         if (execp && k == calls - 1)
           a.lines = exec_prog(r, nl);
         else if (execp)
